@@ -240,3 +240,15 @@ def run(ck):
             okb, why_ = False, 'the Bridged test guarding forward_to_partner does not read session->state inside the receive loop'
     ck.ob('C25.forward', 'C25.forward/bridged-tested-per-chunk', okb, hr_.loc(fwd_[0]) if fwd_ else hr_.loc(),
           'handle_read decides relay-or-parse from session->state for every received chunk%s' % ((' — ' + why_) if why_ else ''))
+
+    # ---- one listing per session: re-registration unlists the old id before the session takes the new one ------------------------
+    # (otherwise the session stays claimable under both ids and two connectors can be "bridged" to it; its bytes reach one of them)
+    hr_ = P.fn(R + 'handle_register')
+    ck.touch(hr_)
+    rm_ = [i for i in hr_.walk() if hr_.nodes[i].get('callee') == R + 'remove_registration']
+    rekey = [i for i, m_, w_ in field_accesses(hr_) if w_ and m_.endswith(('ClientSession::peer_hex', 'ClientSession::peer_id'))]
+    ck.floor('C25.claim', 'writes of the registration key in handle_register', len(rekey), 1)
+    late = must_precede(hr_, rekey, lambda e, s_=set(rm_): e in s_ or any(hr_.is_in(x, e) for x in s_) and hr_.nodes[e]['k'] == 'ExprWithCleanups') if rm_ else [(rekey[0], ['no remove_registration call'])]
+    ck.ob('C25.claim', 'C25.claim/unlist-before-rekey', not late, hr_.loc(late[0][0]) if late else hr_.loc(),
+          'handle_register calls remove_registration(session) before it overwrites session->peer_id / peer_hex, so a session is listed under one id only',
+          late[0][1] if late else None)
